@@ -413,6 +413,13 @@ pub fn gen_code(rng: &mut Rng, spec: SpecId, n_txs: usize) -> Block {
     b.db.insert_contract(dep, asm::assemble(&[Stmt::Create { value: c(0), initcode: init.clone(), salt: None, result_slot: Some(0) }]), U256::ZERO, &[]);
     let mut dep_nonce = 1u64;
     let mut deployed: Vec<Address> = vec![dep.create(1)];
+    // the creation addresses may be pre-funded (balance only): before EIP-161 the created account
+    // keeps nonce 0, so the deployment changes nothing but the code
+    if rng.chance(1, 2) || !spec.is_enabled_in(SpecId::SPURIOUS_DRAGON) {
+        for n in 1..=8u64 {
+            b.db.insert_eoa(dep.create(n), U256::from(5 + n), 0);
+        }
+    }
     let mut auth_nonce_guess = *b.nonces.get(&authority).unwrap();
     let mut own_next = auth_nonce_guess;
     for _ in 0..n_txs {
@@ -622,7 +629,14 @@ pub fn gen_family(rng: &mut Rng, family: &str, n_txs: usize) -> Block {
             gen_lifecycle(rng, spec, n_txs)
         }
         "code" => {
-            let spec = pick(rng, &[SpecId::SHANGHAI, SpecId::CANCUN, SpecId::PRAGUE, SpecId::PRAGUE, SpecId::OSAKA]);
+            let spec = if rng.chance(1, 4) {
+                pick(rng, ALL_SPECS)
+            } else if rng.chance(1, 5) {
+                // before EIP-161 a created account keeps nonce 0
+                pick(rng, &[SpecId::FRONTIER, SpecId::HOMESTEAD, SpecId::TANGERINE])
+            } else {
+                pick(rng, &[SpecId::SHANGHAI, SpecId::CANCUN, SpecId::PRAGUE, SpecId::PRAGUE, SpecId::OSAKA])
+            };
             gen_code(rng, spec, n_txs)
         }
         _ => {
@@ -763,10 +777,26 @@ pub fn gen_precompile(rng: &mut Rng, spec: SpecId, n_txs: usize) -> Block {
     let mut b = precompile_builder(rng, spec, n_eoas);
     for _ in 0..n_txs {
         let from = eoa(rng.below(n_eoas));
-        match rng.below(11) {
+        match rng.below(14) {
             0..=2 => {
                 let w = rng.below(4) as u64;
                 b.call(rng, from, precompile_addr(0), &[w], "precompile-rw-direct");
+            }
+            11 => {
+                b.call(rng, from, precompile_addr(5), &[], "precompile-write-42");
+            }
+            12 => {
+                // fatal unless an earlier transaction of the block wrote 42
+                b.call(rng, from, precompile_addr(6), &[], "precompile-fatal-if-7");
+            }
+            13 => {
+                // an invalid transaction in the middle of the block: ordered commit rejects it and
+                // the rest of the block is replayed sequentially from there
+                let i = b.transfer(rng, from, holder(), 1);
+                let n = b.txs[i].nonce;
+                b.txs[i].nonce = n + 2;
+                b.nonces.insert(from, n);
+                b.desc[i].push_str(" [nonce too high]");
             }
             3 => {
                 let w = rng.below(4) as u64;
